@@ -278,6 +278,11 @@ func runC04(c *core.Ctx) {
 	// that fails — which requires the stream to be closed before the sweep (rule shared with C11)
 	c.Doc("C11.shutdown", "closeWith closes the stream (before taking the handler mutex) and every registered handler with the error — rule shared with C11", 4)
 	ruleShutdown(c, a)
+	// "its own answer … its own arguments": a request or an answer travels as one write on a
+	// connection several callers share; split in two, another caller's message can land
+	// between a header and its payload (rule shared with C10)
+	c.Doc("C10.single-write", "one stream write per message, header then payload in a private buffer — rule shared with C10", 5)
+	ruleSingleWrite(c, a)
 }
 
 func constOf(c *core.Ctx, rel, name string) int64 {
